@@ -51,6 +51,10 @@ pub fn run(input_data: serde_json::Value) -> serde_json::Value {
         SwapInfo::NoSwap,
         "Result from min cost flow solver".to_string(),
     );
+    #[cfg(rssched_verif)]
+    solver::verif_hooks::record("mcf", &start_schedule);
+    #[cfg(rssched_verif)]
+    solver::verif_hooks::record("start", start_schedule_with_info.get_schedule());
 
     let solution = if network.maintenance_considered() {
         println!("\nStarting local search:\n");
@@ -75,6 +79,8 @@ pub fn run(input_data: serde_json::Value) -> serde_json::Value {
     let start_time_transition_optimization = stdtime::Instant::now();
     let mut optimized_transitions: HashMap<VehicleTypeIdx, Transition> = HashMap::new();
     let schedule = solution.solution().get_schedule();
+    #[cfg(rssched_verif)]
+    solver::verif_hooks::record("ls_result", schedule);
     let transition_local_search_solver =
         build_transition_local_search_solver(schedule, network.clone());
     for vehicle_type in network.vehicle_types().iter() {
@@ -86,15 +92,27 @@ pub fn run(input_data: serde_json::Value) -> serde_json::Value {
             schedule.next_day_transition_of(vehicle_type).clone(),
             "Initial transition".to_string(),
         );
+        #[cfg(rssched_verif)]
+        solver::verif_hooks::record_transition(
+            &format!("tstart {}", vehicle_type.0),
+            start_transition.get_transition(),
+        );
         let improved_transition = transition_local_search_solver
             .solve(start_transition)
             .unwrap()
             .unwrap_transition();
+        #[cfg(rssched_verif)]
+        solver::verif_hooks::record_transition(
+            &format!("tend {}", vehicle_type.0),
+            &improved_transition,
+        );
 
         optimized_transitions.insert(vehicle_type, improved_transition);
     }
     let schedule_with_optimized_transitions =
         schedule.set_next_day_transitions(optimized_transitions);
+    #[cfg(rssched_verif)]
+    solver::verif_hooks::record("opt", &schedule_with_optimized_transitions);
     println!(
         "Transition optimized (elapsed time: {:0.2}sec)",
         start_time_transition_optimization.elapsed().as_secs_f32()
@@ -118,6 +136,8 @@ pub fn run(input_data: serde_json::Value) -> serde_json::Value {
     // final_solution.solution().print_tours_long();
 
     let final_schedule = final_solution.solution().get_schedule();
+    #[cfg(rssched_verif)]
+    solver::verif_hooks::record("final", final_schedule);
     println!("\nFinal schedule:");
     final_schedule.print_tours();
 
